@@ -9,10 +9,11 @@ EXTENDS IngressOps, FiniteSets, Sequences, TLC, Json
 Media == {"eth", "ip"}
 LinkDst == {"own", "other", "bcast", "mcast"}
 Src4 == {"uni-on", "uni-off", "lim-bcast", "net-bcast", "mcast", "unspec", "loop", "own"}
-Dst4 == {"own", "other-on", "other-off", "net-bcast", "lim-bcast", "mc-all", "mc-other", "unspec", "loop"}
+Dst4 == {"own", "own2", "other-on", "other-off", "net-bcast", "lim-bcast", "mc-all", "mc-other", "unspec", "loop"}
 Src6 == {"uni", "ll", "mcast", "unspec", "loop"}
-Dst6 == {"own", "own-ll", "other", "all-nodes", "sol-node", "mc-other", "unspec", "loop"}
-Protos == {"echo", "icmp-err", "udp-open", "udp-closed", "syn-open", "syn-closed", "ack-closed", "rst-closed", "unknown"}
+Dst6 == {"own", "own2", "own-ll", "other", "all-nodes", "sol-node", "mc-other", "unspec", "loop"}
+Protos == {"echo", "icmp-err", "udp-open", "udp-bound", "udp-closed", "syn-open", "syn-bound", "syn-closed", "ack-closed", "rst-closed", "unknown",
+           "ns", "mld-query", "igmp-query"}
 Corrupt == {"none", "ip-hdr", "l4", "udp0"}
 
 Rows == { r \in [m : Media, ld : LinkDst, v : {4, 6}, s : Src4 \cup Src6, d : Dst4 \cup Dst6, p : Protos, c : Corrupt] :
@@ -22,8 +23,14 @@ Rows == { r \in [m : Media, ld : LinkDst, v : {4, 6}, s : Src4 \cup Src6, d : Ds
             /\ (r.c = "ip-hdr" => r.v = 4)
             /\ (r.c = "udp0" => r.p \in {"udp-open", "udp-closed"})
             /\ (r.c = "l4" => r.p # "unknown")
+            \* queries: the version that has them, and only where they mean something (a solicitation for an own address, a
+            \* general query to the all-hosts / all-nodes group from an on-link / link-local router)
+            /\ (r.p = "igmp-query" => r.v = 4 /\ r.d = "mc-all" /\ r.s = "uni-on" /\ r.ld \in {"own", "mcast"})
+            /\ (r.p = "mld-query" => r.v = 6 /\ r.d = "all-nodes" /\ r.s = "ll" /\ r.ld \in {"own", "mcast"})
+            /\ (r.p = "ns" => r.v = 6 /\ r.d \in {"own", "own-ll", "sol-node"} /\ r.s \in {"uni", "ll"} /\ r.ld \in {"own", "mcast"})
             \* corruption variants only where the clean packet is deliverable / answerable
-            /\ (r.c # "none" => r.ld = "own" /\ r.d \in {"own", "own-ll"} /\ r.s \in {"uni-on", "uni", "ll"}) }
+            /\ (r.c # "none" => \/ (r.ld = "own" /\ r.d \in {"own", "own-ll", "own2"} /\ r.s \in {"uni-on", "uni", "ll"})
+                                \/ (r.p \in {"igmp-query", "mld-query"} /\ r.c = "l4")) }
 
 VARIABLES row, done
 vars == <<row, done>>
